@@ -43,6 +43,7 @@ def gen_singleop(seed, n_per_op, only=None):
             if name in ("ScatterElements",) and opset < 18:
                 opset = 18
             g = GraphBuilder(rng, opset=opset, mode="single")
+            g.symbolic_inputs = rng.chance(1, 3)
             try:
                 out = OPS[name]["make"](g)
             except Invalid:
